@@ -68,7 +68,7 @@ ImagesFail(dimgs, rows, side, cols) ==
 \* failures of one change: set of [what, ...]
 ChangeFails(de, e, deep) ==
   IF e.k = "query"
-  THEN (IF de.typ = FirstWord(e.sql) /\ de.sql = e.sql /\ de.qdb = e.db /\ de.db = <<>> /\ de.tbl = <<>>
+  THEN (IF de.typ = FirstWord(e.sql) /\ de.sql = e.sql /\ de.qdb = e.db /\ de.cs = e.cs /\ de.db = <<>> /\ de.tbl = <<>>
            /\ de.ts = e.ts /\ de.vals = <<>> /\ de.ids = <<>> THEN {} ELSE {[c |-> 0, what |-> "statement", typ |-> 0]})
   ELSE (IF de.typ = KindWord(e.k) /\ de.sql = <<>> /\ de.ts = e.ts THEN {} ELSE {[c |-> 0, what |-> "kind/ts", typ |-> 0]}) \cup
        (IF de.db = e.tbl.db /\ de.tbl = e.tbl.name THEN {} ELSE {[c |-> 0, what |-> "table", typ |-> 0]}) \cup
@@ -368,11 +368,13 @@ MonC06(S) ==
 (* C08: delivered transactions are stable.                                 *)
 (***************************************************************************)
 \* the projection of a delivery with every value byte replaced by pattern pat (the handler's own scribbles)
-ScribbledRow(row, pat) == [c \in 1..Len(row) |-> [row[c] EXCEPT !.data = [i \in 1..Len(row[c].data) |-> pat],
+ScribbledRow(row, pat) == [c \in 1..Len(row) |-> [row[c] EXCEPT !.data = [i \in 1..Len(row[c].data) |-> (pat + (c - 1)) % 256],
                                                               !.fbits = row[c].fbits]]
+\* the handler gives every value a pattern of its own: pat + 7 * event + 3 * row + column (+ 50 for before images), all
+\* 0-based, modulo 256 - two values that share storage cannot both hold the bytes expected here
 ScribbledEvs(evs, pat) ==
-  [j \in 1..Len(evs) |-> [evs[j] EXCEPT !.vals = [r \in 1..Len(evs[j].vals) |-> ScribbledRow(evs[j].vals[r], pat)],
-                                         !.ids  = [r \in 1..Len(evs[j].ids)  |-> ScribbledRow(evs[j].ids[r], pat)]]]
+  [j \in 1..Len(evs) |-> [evs[j] EXCEPT !.vals = [r \in 1..Len(evs[j].vals) |-> ScribbledRow(evs[j].vals[r], pat + 7 * (j - 1) + 3 * (r - 1))],
+                                         !.ids  = [r \in 1..Len(evs[j].ids)  |-> ScribbledRow(evs[j].ids[r], pat + 7 * (j - 1) + 3 * (r - 1) + 50)]]]
 \* compare ignoring the float parse-back annotation (it is recomputed from the current bytes)
 NoFb(evs) ==
   [j \in 1..Len(evs) |-> [evs[j] EXCEPT !.vals = [r \in 1..Len(evs[j].vals) |-> [c \in 1..Len(evs[j].vals[r]) |-> [evs[j].vals[r][c] EXCEPT !.fbits = <<>>]]],
